@@ -415,3 +415,36 @@ def guarded_render(cfg, src, seconds=20):
     finally:
         signal.setitimer(signal.ITIMER_REAL, 0)
         signal.signal(signal.SIGALRM, old)
+
+
+# ---------------------------------------------------------------------------------------
+def mc_plain(ctx, module, cfg, overrides, timeout=600, spec_dir="tmpl"):
+    """Model-check without `-coverage`.
+
+    ctx.mc always passes `-coverage 1`; TLC's CostModelCreator expands every operator
+    application of this specification recursively and does not get past start-up within
+    minutes (layered folds / mutual recursion).  This wrapper runs the same MC config through
+    harness.tlc.run, accounts states / transitions like ctx.mc, reports a violated invariant as
+    a specification-level violation, and establishes non-vacuity from the transition count (the
+    specification has the single action Add: every generated non-initial state is one Add)."""
+    import os
+    from . import VERIF, tlc, framework
+    sd = os.path.join(VERIF, "specs", spec_dir)
+    cfgp = framework.make_cfg(os.path.join(sd, cfg), overrides, ctx.scratch, "%s_plain_%s" % (module, cfg))
+    r = tlc.run(sd, module, cfgp, coverage=False, timeout=timeout, deadlock=False)
+    ctx.cov["states"] += r.distinct
+    ctx.cov["transitions"] += r.generated
+    ctx.cov["mc_runs"].append({"module": module, "cfg": cfg, "overrides": framework.canon(overrides), "distinct": r.distinct,
+                               "generated": r.generated, "depth": r.depth, "wall_s": round(r.wall_s, 2), "ok": r.ok,
+                               "coverage": "off (see harness/tmpl_driver.mc_plain)"})
+    ctx.cov["checker_cmd"].append("tlc -config %s %s" % (cfg, module))
+    if r.ok:
+        if r.depth < 2 or r.distinct < 10:
+            raise framework.Machinery("vacuity: action Add of %s never taken under %s" % (module, cfg))
+        key = module + ".Add"
+        ctx.cov["coverage_by_action"][key] = ctx.cov["coverage_by_action"].get(key, 0) + r.generated
+    else:
+        states = tlc.parse_error_trace(r.violation["text"])
+        sig = {"kind": "spec", "module": module, "name": r.violation["name"], "what": r.violation["kind"]}
+        ctx.violation(sig, {"tlc_trace": framework.canon([[a, s] for a, s in states]) or r.violation["text"][:6000]})
+    return r
